@@ -197,7 +197,7 @@ def run(ctx):
         except Exception as e:
             raise Violation('harness-exception:' + exc_bucket(e), case, repr(e))
 
-    hyp_run(ctx, res, cases(), body, ctx.pick(150, 1200), label='diagrams')
+    hyp_run(ctx, res, cases(), body, ctx.pick(500, 3000), label='diagrams')
     return res
 
 
